@@ -29,14 +29,15 @@ type chain struct {
 }
 
 type tok struct {
-	s       string
-	ch      *chain
-	pos     int
-	granted []string // as recorded by the storage (order kept)
-	live    bool
-	dead    string // "" | "rotated" | "expired"
-	failed  bool   // a request presenting this token was refused before (burning would be legal)
-	access  string
+	s            string
+	ch           *chain
+	pos          int
+	granted      []string // as recorded by the storage (order kept)
+	live         bool
+	dead         string // "" | "rotated" | "expired"
+	failed       bool   // a request presenting this token was refused before (burning would be legal)
+	access       string
+	scopeRefused bool // a request presenting this (live) token was refused for its scope list alone
 }
 
 func sortedSet(xs []string) []string {
